@@ -90,7 +90,16 @@ def mutants(pid_filter, seed):
             continue
         d = scratch_copy(m['name'])
         try:
-            apply_subst(d, m)
+            try:
+                apply_subst(d, m)
+            except HarnessError as e:
+                # the pattern no longer matches the tree (a later fix: commit touched
+                # those lines): reported, counted as a mutant that was not killed
+                rec = {'pid': m['pid'], 'name': m['name'], 'survives_tests': True,
+                       'killed': False, 'note': str(e)}
+                results.append(rec)
+                print(json.dumps(rec), flush=True)
+                continue
             failed, tail = run_suite(d)
             rec = {'pid': m['pid'], 'name': m['name'], 'survives_tests': not failed,
                    'tests_failed': sorted(failed)[:3]}
